@@ -10,13 +10,65 @@ set_option linter.unnecessarySeqFocus false
 namespace MongoModel.Proofs.C04
 open MongoModel MongoModel.Expr MongoModel.Spec
 
+theorem ite_ok_bool (b : Bool) :
+    (if b = true then (Except.ok true : R Bool) else Except.ok false) = .ok b := by
+  cases b <;> rfl
+
+/-- a bare operand of a variadic operator is a one-item argument list (it used to be rejected:
+    part of finding `scalararg`) -/
+theorem bare_eq_list (c : Ctx) (k : String) (hk : variadicOps.contains k = true) (v : Val)
+    (ha : v.isArr = false) :
+    eval c (.doc [(k, v)]) = eval c (.doc [(k, .arr [v])]) := by
+  simp only [variadicOps, List.contains_cons, List.contains_nil, Bool.or_false, Bool.or_eq_true,
+    beq_iff_eq] at hk
+  have hm : mode k (.arr [v]) = .shaped := by
+    rcases hk with rfl | rfl | rfl | rfl | rfl | rfl <;>
+      simp [mode, dateOps, datePartOps, wholeOps, unaryArithOps, groupingOps]
+  have hcl : classify k ≠ .plain ∧ classify k ≠ .unknown ∧ classify k ≠ .notImpl := by
+    rcases hk with rfl | rfl | rfl | rfl | rfl | rfl <;> decide
+  have hu : unaryListOps.contains k = false := by
+    rcases hk with rfl | rfl | rfl | rfl | rfl | rfl <;> decide
+  have hv : variadicOps.contains k = true := by
+    rcases hk with rfl | rfl | rfl | rfl | rfl | rfl <;> decide
+  rw [eval_shaped c k (.arr [v]) hcl.1 hcl.2.1 hcl.2.2 hu (Or.inr rfl) hm,
+    eval_op c k v hcl.1 hcl.2.1 hcl.2.2]
+  simp only [hu, Bool.false_and, Bool.false_eq_true, if_false, hv, ha, Bool.not_false,
+    Bool.and_self, if_true]
+  cases he : eval c v with
+  | error e =>
+    rcases hk with rfl | rfl | rfl | rfl | rfl | rfl <;>
+      simp [Except.bind, evalOp, arityErr, binaryArithOps, comparisonOps, listOps, arithmeticOps,
+        unaryArithOps, groupingOps, evalList, evalAll, evalOr, evalUnion, he, bind]
+  | ok r =>
+    rcases hk with rfl | rfl | rfl | rfl | rfl | rfl <;>
+      cases r <;>
+      simp [Except.bind, evalOp, arityErr, binaryArithOps, comparisonOps, listOps, arithmeticOps,
+        unaryArithOps, groupingOps, evalList, evalAll, evalOr, evalUnion, he, bind, applyBare,
+        manyItem, pure, Except.pure, ite_ok_bool] <;>
+      (try (split <;> simp [evalUnion]))
+
+theorem bareOk_cases (k : String) (h : bareOk k = true) :
+    (unaryOps.contains k || k = "$size" || k = "$concatArrays") = true ∨
+    k = "$add" ∨ k = "$multiply" ∨ k = "$concat" := by
+  unfold bareOk at h
+  cases hu : unaryOps.contains k with
+  | true => left; simp
+  | false =>
+    simp only [hu, Bool.false_or, List.contains_cons, List.contains_nil, Bool.or_false,
+      Bool.or_eq_true, beq_iff_eq] at h
+    rcases h with h | h | h | h | h
+    · left; simp [h]
+    · left; simp [h]
+    · right; left; exact h
+    · right; right; left; exact h
+    · right; right; right; exact h
+
 /-- a strict operator applied to one operand that is not written as a list -/
 theorem whole_core (c : Ctx) (root : Val) (env : Env) (hr : EnvRel c root env) (k : String)
     (v : Val) (hag : Agrees v) (ha : v.isArr = false) (htz : hasTzKeys v = false)
     (h1 : unproved k = []) (h2 : okReasons (sEval root env v) = [])
     (h3 : rExpr root env v = [])
-    (h4 : (if (unaryOps.contains k || k = "$size" || k = "$concatArrays") = true then []
-         else ["scalararg"]) = [])
+    (h4 : (if bareOk k = true then [] else ["scalararg"]) = [])
     (h5' : ∀ a, sEval root env v = .ok a → strictReasons k [a] = [])
     (res : Option Val)
     (hres : (do applyStrict k [← sEval root env v]) = .ok res) :
@@ -25,26 +77,32 @@ theorem whole_core (c : Ctx) (root : Val) (env : Env) (hr : EnvRel c root env) (
   have hev := hag c root env hr h3 h2
   have h5 := h5' a ha'
   rw [ha'] at hev hres
-  have hu : (unaryOps.contains k || k = "$size" || k = "$concatArrays") = true := by
-    cases hc : (unaryOps.contains k || k = "$size" || k = "$concatArrays") with
+  have hres' : applyStrict k [a] = .ok res := by simpa [bind, Except.bind] using hres
+  have hb : bareOk k = true := by
+    cases hc : bareOk k with
     | true => rfl
     | false => rw [hc] at h4; simp at h4
-  have hk := wholeOps_cases k (unproved_nil k h1) hu
-  exact whole_strict c hr.hign k hk v ha htz a hev h5 res (by simpa [bind, Except.bind] using hres)
+  rcases bareOk_cases k hb with hu | hk
+  · have hk := wholeOps_cases k (unproved_nil k h1) hu
+    exact whole_strict c hr.hign k hk v ha htz a hev h5 res hres'
+  · -- `$add`, `$multiply`, `$concat`: the bare operand is a one-item argument list
+    have hv : variadicOps.contains k = true := by rcases hk with rfl | rfl | rfl <;> decide
+    have hnu : unaryOps.contains k = false := by rcases hk with rfl | rfl | rfl <;> decide
+    rw [bare_eq_list c k hv v ha]
+    exact list_strict c hr.hign k (unproved_nil k h1) hnu [v] [a] (by simp [hev]) h5 res hres'
 
 theorem accOps_cases (k : String) (h : accOps.contains k = true) :
     k = "$sum" ∨ k = "$avg" ∨ k = "$min" ∨ k = "$max" := by
   simpa [accOps] using h
 
-/-- `$sum $avg $min $max` applied to one operand that is not written as a list: inside D the
-    operand is a path or a variable whose value is an array -/
+/-- `$sum $avg $min $max` applied to one operand that is not written as a list: an array value
+    is ranged over, any other value is the one value; a missing value is outside D -/
 theorem acc_scalar_core (c : Ctx) (root : Val) (env : Env) (hr : EnvRel c root env) (k : String)
     (hk : accOps.contains k = true) (v : Val) (hag : Agrees v) (ha : v.isArr = false)
-    (hd : v.isDoc = false)
     (h1 : okReasons (sEval root env v) = []) (h2 : rExpr root env v = [])
     (h3 : (match sEval root env v with
          | .ok (some (.arr xs)) => strictReasons k (xs.map some)
-         | .ok (some _) => ["scalararg"]
+         | .ok (some _) => []
          | .ok none => ["accbaremissing"]
          | .error _ => []) = [])
     (res : Option Val)
@@ -54,27 +112,38 @@ theorem acc_scalar_core (c : Ctx) (root : Val) (env : Env) (hr : EnvRel c root e
   have hev := hag c root env hr h2 h1
   rw [ha'] at hev hres h3
   have hk' := accOps_cases k hk
-  match a, h3, hres, hev, ha' with
-  | none, h3, _, _, _ => simp at h3
-  | some (.arr ys), h3, hres, hev, ha' =>
-    simp only [bind, Except.bind, accBareS] at hres
-    cases h4 : accS k (ys.map some) with
-    | error e => simp [h4, Except.map] at hres
-    | ok w =>
-      simp [h4, Except.map] at hres; subst hres
-      cases v with
-      | str s => exact acc_bare_case c hr.hign k hk' s ys hev h3 w h4
-      | arr xs => simp [Val.isArr] at ha
-      | doc fs => simp [Val.isDoc] at hd
-      | _ => all_goals simp [sEval] at ha'
-  | some .null, h3, _, _, _ => simp at h3
-  | some (.bool _), h3, _, _, _ => simp at h3
-  | some (.int _), h3, _, _, _ => simp at h3
-  | some (.dbl _ _), h3, _, _, _ => simp at h3
-  | some (.str _), h3, _, _, _ => simp at h3
-  | some (.date _ _), h3, _, _, _ => simp at h3
-  | some (.oid _), h3, _, _, _ => simp at h3
-  | some (.doc _), h3, _, _, _ => simp at h3
+  cases a with
+  | none => simp at h3
+  | some x =>
+    cases hx : x.isArr with
+    | true =>
+      obtain ⟨ys, rfl⟩ : ∃ ys, x = .arr ys := by cases x <;> simp [Val.isArr] at hx; exact ⟨_, rfl⟩
+      simp only at h3
+      rw [acc_bare_eval c hr.hign k hk' v ha ys hev h3]
+      simpa [bind, Except.bind, accBareS] using hres
+    | false =>
+      rw [acc_bare_eval_val c k hk' v ha x hx hev]
+      have : accBareS k (some x) = accS k [some x] := by
+        cases x <;> simp [Val.isArr] at hx <;> rfl
+      simpa [bind, Except.bind, this] using hres
+
+/-- `$and` / `$or` given one operand that is not written as a list -/
+theorem andor_bare (c : Ctx) (root : Val) (env : Env) (hr : EnvRel c root env) (k : String)
+    (hk : (k = "$and" || k = "$or") = true) (v : Val) (hag : Agrees v) (ha : v.isArr = false)
+    (h1 : okReasons (sEval root env v) = []) (h2 : rExpr root env v = []) (res : Option Val)
+    (hres : (do pure (some (Val.bool (Spec.toBool (← sEval root env v))))) = .ok res) :
+    eval c (.doc [(k, v)]) = .ok res := by
+  obtain ⟨a, ha'⟩ := okReasons_nil _ h1
+  have hev := hag c root env hr h2 h1
+  rw [ha'] at hev hres
+  have hk' : k = "$and" ∨ k = "$or" := by simpa using hk
+  have hv : variadicOps.contains k = true := by rcases hk' with rfl | rfl <;> decide
+  rw [bare_eq_list c k hv v ha]
+  rcases hk' with rfl | rfl
+  · rw [and_spec c [v] [a] (by simp [hev])]
+    simpa [bind, Except.bind, pure, Except.pure] using hres
+  · rw [or_spec c [v] [a] (by simp [hev])]
+    simpa [bind, Except.bind, pure, Except.pure] using hres
 
 /-- `{$op: operand}` with an operand that is neither a list nor a document -/
 theorem op_scalar_case (c : Ctx) (root : Val) (env : Env) (hr : EnvRel c root env) (k : String)
@@ -90,18 +159,17 @@ theorem op_scalar_case (c : Ctx) (root : Val) (env : Env) (hr : EnvRel c root en
           okReasons (sEval root env v) ++ rExpr root env v ++
           (match sEval root env v with
            | .ok (some (.arr xs)) => strictReasons k (xs.map some)
-           | .ok (some _) => ["scalararg"]
+           | .ok (some _) => []
            | .ok none => ["accbaremissing"]
            | .error _ => [])
         else if strictOps.contains k = true then
           unproved k ++ okReasons (sEval root env v) ++ rExpr root env v ++
-          (if (unaryOps.contains k || k = "$size" || k = "$concatArrays") = true then []
-           else ["scalararg"]) ++
+          (if bareOk k = true then [] else ["scalararg"]) ++
           (match sEval root env v with
            | .ok r => strictReasons k [r]
            | .error _ => [])
         else if (k = "$and" || k = "$or") = true then
-          ["scalararg"] ++ okReasons (sEval root env v) ++ rExpr root env v
+          okReasons (sEval root env v) ++ rExpr root env v
         else ["unproved:" ++ k]) = [])
       (hres' : (if k = "$literal" then .ok (some v)
         else if accOps.contains k = true then do (accBareS k (← sEval root env v)).map some
@@ -118,7 +186,7 @@ theorem op_scalar_case (c : Ctx) (root : Val) (env : Env) (hr : EnvRel c root en
       · simp only [hacc, if_true] at hre' hres'
         obtain ⟨h12, h3⟩ := append_nil2 hre'
         obtain ⟨h1, h2⟩ := append_nil2 h12
-        exact acc_scalar_core c root env hr k hacc v hag ha hd h1 h2 h3 res hres'
+        exact acc_scalar_core c root env hr k hacc v hag ha h1 h2 h3 res hres'
       have hacc' : accOps.contains k = false := by simpa using hacc
       simp only [hacc', Bool.false_eq_true, if_false] at hre' hres'
       by_cases hst : strictOps.contains k = true
@@ -130,8 +198,12 @@ theorem op_scalar_case (c : Ctx) (root : Val) (env : Env) (hr : EnvRel c root en
         exact whole_core c root env hr k v hag ha htz h1 h2 h3 h4
           (fun a ha' => by rw [ha'] at h5; exact h5) res hres'
       · have hst' : strictOps.contains k = false := by simpa using hst
-        simp only [hst', Bool.false_eq_true, if_false] at hre'
-        split at hre' <;> simp at hre'
+        simp only [hst', Bool.false_eq_true, if_false] at hre' hres'
+        by_cases hao : (k = "$and" || k = "$or") = true
+        · rw [if_pos hao] at hre' hres'
+          obtain ⟨h1, h2⟩ := append_nil2 hre'
+          exact andor_bare c root env hr k hao v hag ha h1 h2 res hres'
+        · rw [if_neg hao] at hre'; simp at hre'
   cases v with
   | arr xs => simp [Val.isArr] at ha
   | doc fs => simp [Val.isDoc] at hd
